@@ -3,8 +3,8 @@
    non-vacuity per theorem.  All statements are about Model/AgentSet.v `step` - the function
    `run_case` folds over a history - for ALL tables, pools, member lists, user functions of the
    DSLs and histories. *)
-From Coq Require Import ZArith List Bool Permutation Sorted.
-From Mesa Require Import Common.ListX Model.AgentSet Proofs.AgentSetProofs.
+From Coq Require Import ZArith List Bool Lia Permutation Sorted.
+From Mesa Require Import Common.ListX Generated.Tables Model.AgentSet Proofs.AgentSetProofs Proofs.AgentSetBridge.
 Import ListNotations.
 Open Scope Z_scope.
 
@@ -575,3 +575,97 @@ Proof.
     destruct (s =? 2); [intros H; inversion H; repeat constructor; simpl; intuition discriminate|discriminate].
   - split; [vm_compute; reflexivity|]. intros v. vm_compute. discriminate.
 Qed.
+
+(* ================================================================== code-level tie (T1)
+   The tests, arithmetic and loop of AgentSet.select, the reverse= argument of sort, the in-place/copy
+   branches of select / sort / shuffle and the branch structure of get are TRANSLATED from the current
+   mesa/agent.py on every run (harness/tables/agentset_code.py -> Generated/Tables.v: gen_select_fast,
+   gen_select_limit, gen_select_keep, gen_select_loop, gen_select_count0, gen_sort_reverse, gen_*_inplace,
+   gen_get_branch); what cannot be translated (dict / weak-reference statements) is compared verbatim
+   (gen_select_skeleton_ok, gen_agentset_glue_ok).  The model functions ARE the translated code ... *)
+Theorem C03_source_select_is_model : forall t p am ty m,
+  am_wf am -> select_members t p am ty m = gen_select_members t p am ty m.
+Proof. exact select_bridge. Qed.
+Print Assumptions C03_source_select_is_model.
+
+Theorem C03_source_sort_is_model : forall t k asc m,
+  sort_members t k asc m = gen_sort_members t k asc m.
+Proof. exact sort_bridge. Qed.
+Print Assumptions C03_source_sort_is_model.
+
+(* ... so the headline theorems hold of the translated source code itself: select (assembled from the
+   translated fast-path test, at_most conversion, counting loop with its break and keep tests) returns the
+   first floor-limited matches in order, *)
+Theorem C03_select_spec_of_source : forall t p am ty m r,
+  am_wf am -> gen_select_members t p am ty m = Some r ->
+  r = take_lim (limit am (zlen m)) (filter (keepb t p ty) m).
+Proof. exact select_spec_of_source. Qed.
+Print Assumptions C03_select_spec_of_source.
+
+(* raises exactly when the translated loop reaches a member on which the filter raises, *)
+Theorem C03_select_error_of_source : forall t p am ty m,
+  am_wf am ->
+  (gen_select_members t p am ty m = None <->
+   gen_select_fast (is_none p) (is_none ty) (am_inf am) = false /\
+   exists pre a post, m = pre ++ a :: post /\ src_keep t p ty a = None /\
+     (forall b, In b pre -> src_keep t p ty b <> None) /\
+     reached (limit am (zlen m)) (zlen (filter (keepb t p ty) pre)) = false).
+Proof. exact select_error_of_source. Qed.
+Print Assumptions C03_select_error_of_source.
+
+(* and sort with the translated reverse= argument is THE stable sorted permutation in the requested direction *)
+Theorem C03_sort_spec_of_source : forall t k asc m r,
+  gen_sort_members t k asc m = Some r ->
+  let kf := key_or0 t k in
+  Permutation m r /\ key_sorted asc kf r /\
+  (forall v, filter (fun a => kf a =? v) r = filter (fun a => kf a =? v) m) /\
+  (forall l', key_sorted asc kf l' ->
+     (forall v, filter (fun a => kf a =? v) l' = filter (fun a => kf a =? v) m) -> l' = r).
+Proof. exact sort_spec_of_source. Qed.
+Print Assumptions C03_sort_spec_of_source.
+
+(* the slot a select / sort / shuffle writes and the "returned self" flag follow the translated
+   `... if not inplace else self._update(...)` / `if inplace:` branches of the source *)
+Theorem C03_source_inplace_branches : forall st s r inplace d m,
+  members st s = Some m -> valid_slot d = true ->
+  step st (mk_op s r inplace d) =
+  match transform (st_tbl st) r m with
+  | TOk x => (store st (if src_inplace r inplace then s else d) x, ROk [b2z (src_inplace r inplace)])
+  | TErr => (st, RErr E_ATTR)
+  | TIllegal => (st, RIllegal)
+  end.
+Proof. exact step_reorder_of_source. Qed.
+Print Assumptions C03_source_inplace_branches.
+
+(* get follows the translated handle_missing / single-name branch structure (tag = 2*uses_default + nested) *)
+Theorem C03_source_get_branches : forall st s (names : list Z) (single : bool) mode dflt m,
+  members st s = Some m ->
+  step st (Get s names single mode dflt) =
+  match gen_get_branch mode single with
+  | None => (st, RErr E_VALUE)
+  | Some tag =>
+      let names' := if Z.even tag then firstn 1 names else names in
+      match all_some (get_row (st_tbl st) names' (if tag <? 2 then 0 else 1) dflt) m with
+      | Some rows => (st, ROk (zlen rows :: concat rows))
+      | None => (st, RErr E_ATTR)
+      end
+  end.
+Proof. exact get_of_source. Qed.
+Print Assumptions C03_source_get_branches.
+
+(* the signature defaults the driver relies on when it omits an argument, and the verbatim glue *)
+Theorem C03_source_defaults : gen_agentset_defaults = (false, [false; false; false], 0, true, true, true).
+Proof. exact defaults_bridge. Qed.
+Print Assumptions C03_source_defaults.
+
+Theorem C03_source_glue : gen_select_skeleton_ok = true /\ gen_agentset_glue_ok = true.
+Proof. exact glue_ok. Qed.
+Print Assumptions C03_source_glue.
+
+Example C03_source_example :
+  am_wf (AFrac 3 2) /\
+  gen_select_members (st_tbl ex_state) (Some (PAttrLe 0 4)) (AFrac 3 2) (Some 0) [3; 1; 2; 4] = Some [3; 1; 2] /\
+  gen_select_members (st_tbl ex_state) (Some (PAttrLe 1 9)) AInf None [3; 1; 2] = None /\
+  gen_sort_members (st_tbl ex_state) (KAttr 0) false [2; 3; 4; 1] = Some [3; 1; 4; 2] /\
+  gen_get_branch 1 false = Some 3 /\ gen_get_branch 7 true = None.
+Proof. split; [simpl; lia|]. vm_compute. repeat split. Qed.
